@@ -74,6 +74,18 @@ MStepF(mm, ss, s, n) ==
            [] n.k = "N"           -> R([ss EXCEPT !.won = @ + 1], <<[k |-> "IC", v |-> ss.won, c |-> c], N(1000 + ss.won + 1, c)>>)
            \* an error or a completion of the source or of the boundary completes the current window, then ends the output (pinned)
            [] OTHER               -> R(ended1, <<[k |-> "IC", v |-> ss.won, c |-> c], n>>)
+    [] mm.op = "GroupBy" ->
+         \* single source, higher-order output flattened like WindowWhen: key = v % 2, group g = position of the key in ss.buf (creation order).
+         \* A new group is handed to the observer with its first value already inside; both terminals reach the output first, then every
+         \* group (IE(g) / IC(g)); the order among the groups is not fixed by the code (the replayer sorts it).
+         LET key == v % 2
+             has == \E g \in 1..Len(ss.buf) : ss.buf[g] = key
+             gi == IF has THEN CHOOSE g \in 1..Len(ss.buf) : ss.buf[g] = key ELSE Len(ss.buf) + 1
+             groups(kk) == [g \in 1..Len(ss.buf) |-> [k |-> kk, v |-> g, c |-> c]]
+         IN CASE n.k = "N" -> IF has THEN R(ss, <<[k |-> "I", v |-> 100 * gi + v, c |-> c]>>)
+                              ELSE R([ss EXCEPT !.buf = Append(@, key)], <<N(1000 + gi, c), [k |-> "I", v |-> 100 * gi + v, c |-> c]>>)
+              [] n.k = "E" -> R(ended1, <<n>> \o groups("IE"))
+              [] OTHER     -> R(ended1, <<n>> \o groups("IC"))
     [] mm.op = "ThrottleWhen" ->
          CASE n.k = "E" -> R(ended1, <<n>>)
            [] n.k = "C" -> R(ended1, <<n>>)
@@ -84,6 +96,9 @@ MStepF(mm, ss, s, n) ==
 \* what an operator emits when it is subscribed, before its sources are (WindowWhen hands out its first window)
 SubOutF(mm) == IF mm.op = "WindowWhen" THEN <<N(1001, SubCtx)>> ELSE <<>>
 SubStF(mm, ss) == IF mm.op = "WindowWhen" THEN [ss EXCEPT !.won = 1] ELSE ss
+
+\* what the observer still receives when the subscriber leaves: GroupBy completes the groups it handed out
+UnsubOutF(mm, ss) == IF mm.op = "GroupBy" /\ ~ss.done THEN [g \in 1..Len(ss.buf) |-> [k |-> "IC", v |-> g, c |-> SubCtx]] ELSE <<>>
 
 HasTerminal(out) == \E j \in 1..Len(out) : out[j].k \in {"E", "C"}
 
